@@ -9,7 +9,8 @@ From WebP Require Import Gen.Kernels Lib.ZBits Lib.Res Spec.YUV Model.Yuv Spec.A
 From WebP Require Spec.Container Proofs.Container_bytes Proofs.Container_safety Model.Container.
 From WebP Require Model.ArithDec Proofs.C15_main Proofs.C15_ops Proofs.VP8L_kernels Proofs.VP8_kernels.
 From WebP Require Import Lib.Arr Proofs.VP8_arraykernels_aux Proofs.VP8_arraykernels.
-From WebP Require Model.LosslessLib Model.BitReader Model.Huffman Proofs.Lossless_BitReader Proofs.Lossless_HuffmanSafe.
+From WebP Require Model.LosslessLib Model.BitReader Model.Huffman Proofs.Lossless_BitReader Proofs.Lossless_HuffmanSafe Proofs.Lossless_HuffmanRead
+  Model.Lossless Proofs.Lossless_PixelSafe.
 Import ListNotations.
 Open Scope Z_scope.
 
@@ -89,7 +90,8 @@ Qed.
 
 (* ---------------- lossless decoder components (Model/BitReader.v, Model/Huffman.v; tied by the c01model correspondence) ---------------- *)
 Module LL.
-  Import Lib.Res Model.LosslessLib Model.BitReader Model.Huffman Proofs.Lossless_BitReader Proofs.Lossless_HuffmanSafe.
+  Import Lib.Res Model.LosslessLib Model.BitReader Model.Huffman Model.Lossless Proofs.Lossless_BitReader Proofs.Lossless_HuffmanSafe
+    Proofs.Lossless_HuffmanRead Proofs.Lossless_PixelSafe.
 
   (* BitReader::fill on every reachable reader state: never an error, never a panic *)
   Theorem bit_reader_fill_safe : forall s r, R s r -> exists r', fill r = Ok r'.
@@ -107,4 +109,28 @@ Module LL.
   Theorem huffman_build_safe : forall lens, lens_ok lens -> Z.of_nat (length lens) <= 5957 ->
     forall p, build_implicit lens <> Panic p.
   Proof. exact build_implicit_no_panic. Qed.
+
+  (* read_symbol / peek_symbol on any tree build_implicit returns, with ANY reservoir contents (also garbage above nbits):
+     a symbol or BitStreamError -- no table or tree index out of range, no `- 1` underflow on an empty slot (the table is
+     complete), the tree walk ends (depth bound) *)
+  Theorem huffman_read_symbol_safe : forall lens t r,
+    lens_ok lens -> Z.of_nat (length lens) <= 5957 -> build_implicit lens = Ok t -> 0 <= buffer r -> 0 <= nbits r ->
+    (exists sym r', read_symbol t r = Ok (sym, r')) \/ read_symbol t r = Err EBitStreamError.
+  Proof. exact read_symbol_total. Qed.
+
+  Theorem huffman_peek_symbol_safe : forall lens t r,
+    lens_ok lens -> Z.of_nat (length lens) <= 5957 -> build_implicit lens = Ok t -> 0 <= buffer r ->
+    exists o, peek_symbol t r = Ok o.
+  Proof. exact peek_symbol_total. Qed.
+
+  (* LosslessDecoder::decode_image_data (the pixel loop: literals, back-references with the copy_within trick, colour-cache hits,
+     block / group switching, the all-single-symbol fast path) under the header invariants the decoder establishes before it
+     (five trees per group that the decoder can build, green symbols < 280 + cache size, distance symbols < 40, entropy image
+     entries name existing groups, cache of 2^bits entries): never panics -- every buffer, table and cache index in range, no
+     arithmetic overflow -- and terminates within its fuel *)
+  Theorem pixel_loop_safe : forall w hgt h cn br data s,
+    1 <= w <= 65535 -> 1 <= hgt <= 65536 -> 0 <= cn -> info_ok h w hgt (280 + cn) -> cache_inv (h_cache h) cn ->
+    R s br -> zlen data = 4 * (w * hgt) ->
+    match decode_image_data br w hgt h data with Panic _ => False | OutOfFuel => False | _ => True end.
+  Proof. exact decode_image_data_safe. Qed.
 End LL.
